@@ -217,10 +217,12 @@ def decode_time(
     score_onsets = score_onsets.astype(float, copy=False)
     score_durations = score_durations.astype(float, copy=False)
 
+    # group the score onsets the way encode_tempo (tempo_by_average,
+    # tempo_by_derivative) does
     score_info = get_unique_seq(
         onsets=score_onsets,
         offsets=score_onsets + score_durations,
-        unique_onset_idxs=None,
+        unique_onset_idxs=get_unique_onset_idxs((1e4 * score_onsets).astype(int)),
         return_diff=True,
     )
     unique_onset_idxs = score_info["unique_onset_idxs"]
